@@ -227,6 +227,15 @@ def gen_can_desc(rng, mode):
                 for f in arrs:
                     if scal and rng.random() < 0.4 and mode != "aligned":
                         blocks.append(f'    signal {f[0]} {{ mux_count: {rng.randint(1, 4)}, mux_signal: "{rng.choice(scal)[0]}", }},')
+                if blocks and rng.random() < 0.15 and mode != "aligned":
+                    # a signal block name written twice, the later one with other options (the first block of a name counts),
+                    # and the documented `bitstart` field, which the packed layout does not use
+                    fn = blocks[rng.randrange(len(blocks))].split()[1]
+                    blocks.append(f'    signal {fn} {{ mux_count: {rng.randint(2, 5)}, mux_signal: "{rng.choice(scal)[0] if scal else fn}", }},')
+                if rng.random() < 0.15:
+                    free = [f for f in fs if not any(b.startswith(f"    signal {f[0]} ") for b in blocks)]
+                    if free:
+                        blocks.append(f"    signal {rng.choice(free)[0]} {{ bitstart: {rng.choice([0, 3, 8, 60, 64])}, }},")
                 alias = f"as {name}x{k}" if (k or rng.random() < 0.3) else ""  # also structs bound under an alias only
                 bus = "" if rng.random() < 0.5 else f'    bus: "{rng.choice(BUS_NAMES)}",\n'
                 dev = "" if rng.random() < 0.6 else f'    device: "{rng.choice(["ecu", "bms"])}",\n'
